@@ -517,7 +517,7 @@ class DocumentMapper:
         # We can't use index from stripped_full directly on full_text,
         # but if it matches, it suggests we should try a fuzzy approach or fallback
         # This fallback is primarily for Header matching (#)
-        if stripped_target in self.full_text:
+        if stripped_target and stripped_target in self.full_text:
             start_idx = self.full_text.find(stripped_target)
             return start_idx, len(stripped_target)
 
